@@ -710,7 +710,7 @@ def same_interval(r: R, chk, ctx, guards, q: str, rule="SAME-INTERVAL"):
     bad = not eq and onesided and other_calls == 0
     loc = r.loc(ctx, guards[0][0].ast) if guards else r.loc(ctx, ctx.fi.node)
     chk.ob(rule, f"{q}: the interval guard compares both ends for equality (or containment both ways)", not bad, loc=loc,
-           detail="" if not bad else f"{q}: the only test between the operands' intervals is `{seg(guards[0][0].ast, 50)}` — a containment of one interval in the other, not an equality: an operand whose interval lies inside the other's is accepted, so different intervals do not raise ValueError and U|V / V|U disagree",
+           detail="" if not bad else f"{q}: the only test between the operands' intervals is `{seg(guards[0][0].ast, 50)}` — a containment of one interval in the other, not an equality: an operand whose interval lies inside the other's is accepted, so different intervals do not raise ValueError (and the operation is accepted one way round but refused the other way round)",
            func=q, construct="interval guard is a one-sided containment")
 
 
